@@ -359,12 +359,19 @@ class Gen:
                 if not self.busy():
                     break
                 self.emit("run")
-            for i in self.live():
-                self.emit(f"close h{i}")
+            # close every live handle, including those the accept policies created during `run`; repeat because the
+            # `run` that completes the closes may itself accept more
+            for _ in range(4):
+                live = self.live()
+                if not live:
+                    break
+                for i in live:
+                    self.emit(f"close h{i}")
+                self.emit("run")
             self.emit("run")
             self.emit("loop_close")
-        if self.rng.below(4) == 0:                      # a second loop in the same process: the lock pipe is not recreated
-            self.loop_init()
+        if not self.loop and self.rng.below(4) == 0:   # a second loop in the same process (only after a successful close):
+            self.loop_init()                            # the lock pipe is not recreated
             if self.loop:
                 self.emit("tcp_init inet"); self.emit(f"close h{len(self.hs) - 1}"); self.emit("run"); self.emit("loop_close")
         self.emit("end")
@@ -434,6 +441,9 @@ def shrink(ctx, exe, prog, sig):
         import threading
         rc, out, err = run_case(ctx, exe, p, f"s{threading.get_ident()}")
         v, _ = judge(ctx, p, rc, out, err)
+        ol = out.splitlines()
+        if any(a.startswith("op loop_init") and b == "bad-op" for a, b in zip(ol, ol[1:])):
+            return False          # loop_init over a live loop is not a program of the catalogue
         return any(s == sig for s, _ in v)
     n = 2
     while len(lines) >= 2 and n <= len(lines) * 2:
